@@ -201,12 +201,40 @@ def requests_decodable(run):
     (the real session must not answer Invalid Message to a request the real client produced)."""
     E.rsa_pair()
     n = 0
-    for ver in [(1, 0), (1, 1), (1, 2), (1, 3), (1, 4), (2, 0)]:
-        drv = D.EngineDriver(intern=E.new_interner())
+    # one fresh client per version, then ONE client object whose kmip_version is changed between the calls
+    # (as after a DiscoverVersions negotiation): the request header must follow, and the server must still decode
+    walk = [(1, 2), (2, 0), (1, 0), (1, 4), (1, 1), (2, 0), (1, 3)]
+    shared = {}
+    for mode, ver in [("fresh", v) for v in [(1, 0), (1, 1), (1, 2), (1, 3), (1, 4), (2, 0)]] + [("walk", v) for v in walk]:
+        if mode == "fresh" or not shared:
+            drv = D.EngineDriver(intern=E.new_interner())
+        else:
+            drv = shared["drv"]
         try:
-            sock = C.PipeSocket(drv.engine)
-            cl = C.make_client(sock, ver)
-            u = cl.register(pobj.SymmetricKey(enums.CryptographicAlgorithm.AES, 128, KEY[:16], masks=MASK + [enums.CryptographicUsageMask.MAC_GENERATE, enums.CryptographicUsageMask.DERIVE_KEY], name="k"))
+            if mode == "fresh":
+                sock = C.PipeSocket(drv.engine)
+                cl = C.make_client(sock, ver)
+            elif not shared:
+                sock = C.PipeSocket(drv.engine)
+                cl = C.make_client(sock, ver)
+                shared.update(drv=drv, sock=sock, cl=cl)
+            else:
+                sock, cl = shared["sock"], shared["cl"]
+                cl.kmip_version = C.KV[tuple(ver)]
+            try:
+                u = cl.register(pobj.SymmetricKey(enums.CryptographicAlgorithm.AES, 128, KEY[:16], masks=MASK + [enums.CryptographicUsageMask.MAC_GENERATE, enums.CryptographicUsageMask.DERIVE_KEY], name="k"))
+            except pexc.KmipOperationFailure as e:
+                # the server refuses the client's own Register of a plain AES key
+                try:
+                    pv = A.decode_request(sock.requests[-1]).request_header.protocol_version
+                    stated = [pv.major, pv.minor]
+                except Exception:
+                    stated = None
+                run.violation("C19_request_not_decodable" if "parsing" in str(e).lower() else "C19_register_refused",
+                              {"call": "register", "mode": mode, "ver": ver[0] * 10 + ver[1]},
+                              {"client_call": "register", "client_version": ver, "request_header_version": stated,
+                               "error": str(e), "request": sock.requests[-1].hex()})
+                continue
             calls = dict((k, v[0]) for k, v in adapters(u, ver).items() if v is not None)
             # variants without an identifier: the operations then rely on the ID placeholder
             calls["activate()"] = lambda c: c.activate()
@@ -230,11 +258,20 @@ def requests_decodable(run):
                 except Exception as e:
                     exc = e
                 n += 1
-                run.case(("client-request", name, ver))
+                run.case(("client-request", mode, name, ver))
                 if len(sock.responses) == k0:
                     # the client refused its own arguments before sending: nothing to decode
                     continue
                 resp = sock.responses[-1]
+                try:
+                    pv = A.decode_request(sock.requests[-1]).request_header.protocol_version
+                    stated = (pv.major, pv.minor)
+                except Exception:
+                    stated = None
+                if stated is not None and stated != tuple(ver):
+                    run.violation("C19_request_version", {"mode": mode, "ver": ver[0] * 10 + ver[1], "stated": list(stated)},
+                                  {"client_call": name, "client_version": ver, "request_header_version": stated,
+                                   "request": sock.requests[-1].hex()})
                 try:
                     ar = A.abs_response(A.decode_response(resp), drv.intern)
                     reason = ar["items"][0]["reason"] if ar["items"] else ""
@@ -245,7 +282,10 @@ def requests_decodable(run):
                     run.violation("C19_request_not_decodable", {"call": name, "ver": ver[0] * 10 + ver[1]},
                                   {"client_call": name, "version": ver, "request": sock.requests[-1].hex(), "server_message": msg})
         finally:
-            drv.close()
+            if mode == "fresh":
+                drv.close()
+    if shared:
+        shared["drv"].close()
     run.extra["client_requests_sent_to_real_server"] = n
     run.traces += n
 
